@@ -138,7 +138,9 @@ func suiteBlob(rn *runner, r *rng, tier string) {
 			vals := make([]byte, 8*nv)
 			for j := 0; j < nv; j++ {
 				var v uint64
-				switch cr.intn(5) {
+				switch cr.intn(7) {
+				case 5, 6: // a forged tape word (what a float-with-flag tag copies verbatim): any tag, small payload
+					v = uint64(tagAlphabet[cr.intn(len(tagAlphabet))])<<56 | uint64(cr.intn(8))
 				case 0:
 					v = uint64(cr.intn(16))
 				case 1:
@@ -165,7 +167,35 @@ func suiteBlob(rn *runner, r *rng, tier string) {
 				continue
 			}
 			ts, msg, tags, vals := sectionsOf(pj)
-			switch cr.intn(6) {
+			switch cr.intn(8) {
+			case 6, 7:
+				// retag a number as float-with-flag: its first value word is then copied verbatim onto the tape,
+				// so any tape word (a NOP with skip 0, a container pointing backwards, …) can be forged
+				var cand []int
+				voff := make([]int, len(tags))
+				vo := 0
+				for k, t := range tags {
+					voff[k] = vo
+					switch t {
+					case '"', 'e':
+						vo += 16
+					case 'l', 'u', 'd', '{', '[', 'r':
+						vo += 8
+					}
+					if t == 'l' || t == 'u' || t == 'd' {
+						cand = append(cand, k)
+					}
+				}
+				if len(cand) > 0 {
+					k := cand[cr.intn(len(cand))]
+					tags[k] = 'e'
+					forged := make([]byte, 8)
+					w := uint64(tagAlphabet[cr.intn(len(tagAlphabet))])<<56 | uint64(cr.intn(int(ts)+2))
+					binary.LittleEndian.PutUint64(forged, w)
+					nv := append([]byte(nil), vals[:voff[k]]...)
+					nv = append(nv, forged...)
+					vals = append(nv, vals[voff[k]:]...)
+				}
 			case 0:
 				if len(tags) > 0 {
 					tags[cr.intn(len(tags))] = tagAlphabet[cr.intn(len(tagAlphabet))]
